@@ -16,24 +16,32 @@ func init() {
 
 // VX_C01_MetaAcrossRequests: two requests handled one after the other (the
 // second on a recycled context, possibly of another session): the second
-// handler sees exactly its own request's metadata, including keys with empty
-// values. args: sameSession(0/1), nVal
+// handler (or push receiver) sees exactly its own request's metadata and body,
+// including keys with empty values. args: sameSession(0/1), nVal[, kind(0 CALL, 1 PUSH)]
 func VX_C01_MetaAcrossRequests(args []int) {
 	vxPoolMode(1)
 	p := vxNewPeer()
 	route := &vxRoute{name: "m"}
-	var metas []string
-	route.fn = func(ctx *handlerCtx, arg []byte) (interface{}, *Status) {
+	var metas, bodies []string
+	see := func(ctx *handlerCtx, arg []byte) {
 		s := ""
 		ctx.VisitMeta(func(k, v []byte) { s += string(k) + "=" + string(v) + ";" })
 		metas = append(metas, s)
-		return arg, nil
+		bodies = append(bodies, string(arg))
 	}
-	vxRouteCall(p, route)
+	route.fn = func(ctx *handlerCtx, arg []byte) (interface{}, *Status) { see(ctx, arg); return arg, nil }
+	route.push = func(ctx *handlerCtx, arg []byte) *Status { see(ctx, arg); return nil }
+	mtype := TypeCall
+	if len(args) > 2 && args[2] == 1 {
+		mtype = TypePush
+		vxRoutePush(p, route)
+	} else {
+		vxRouteCall(p, route)
+	}
 	secret := vxString("secret", args[1])
 	vxAssume(len(secret) == 0 || (secret[0] >= 'a' && secret[0] <= 'z'))
 	c1 := newVxConn("srv:1", "alice:1")
-	c1.feed(vxFrame(TypeCall, 1, "/m", []byte("a"), socket.WithAddMeta("user", "alice"), socket.WithAddMeta("token", secret), socket.WithAddMeta("z", "9")))
+	c1.feed(vxFrame(mtype, 1, "/m", []byte("alice's-body-"+secret), socket.WithAddMeta("user", "alice"), socket.WithAddMeta("token", secret), socket.WithAddMeta("z", "9")))
 	_, st := p.ServeConn(c1)
 	vxAssume(st.OK())
 	vxWaitIdle()
@@ -46,14 +54,20 @@ func VX_C01_MetaAcrossRequests(args []int) {
 	// (the read loop takes its context for the next frame before the previous
 	// one is recycled, so reuse shows from the second follow-up on)
 	for k := int32(0); k < 3; k++ {
-		c2.feed(vxFrame(TypeCall, 2+k, "/m", []byte("b"), socket.WithAddMeta("user", "bob"), socket.WithAddMeta("trace", ""), socket.WithAddMeta("flag", "")))
+		c2.feed(vxFrame(mtype, 2+k, "/m", []byte("b"), socket.WithAddMeta("user", "bob"), socket.WithAddMeta("trace", ""), socket.WithAddMeta("flag", "")))
 		vxWaitIdle()
 	}
 	vxAssert(len(metas) == 4, "all requests handled")
 	if len(metas) == 4 {
-		vxAssert(metas[0] == "user=alice;token="+secret+";z=9;", "first handler sees its own metadata")
+		vxAssert(metas[0] == "user=alice;token="+secret+";z=9;" && bodies[0] == "alice's-body-"+secret, "first handler sees its own metadata and body")
 		for k := 1; k < 4; k++ {
 			vxAssert(metas[k] == "user=bob;trace=;flag=;", "later handler sees exactly its own metadata, nothing of the earlier request")
+			vxAssert(bodies[k] == "b", "later handler sees exactly its own body")
+		}
+	}
+	if mtype == TypeCall {
+		for _, w := range c2.writes {
+			vxAssert(!vxMentions(w, []byte(secret)) || c2 == c1, "no byte of another session's request appears in a reply")
 		}
 	}
 	vxCover("c01.meta-across")
